@@ -40,7 +40,7 @@ def main():
     import re
     mm = re.match(r"wt(\d*)-(C\d+)$", bn)
     if mm:
-        sid = mm.group(2) + {"": "", "2": "b", "3": "c", "4": "d", "5": "e", "6": "f", "7": "g"}[mm.group(1)]
+        sid = mm.group(2) + {"": "", "2": "b", "3": "c", "4": "d", "5": "e", "6": "f", "7": "g", "8": "h"}[mm.group(1)]
     else:
         sid = bn
     patch = os.path.join(wt, "seed.patch")
